@@ -96,7 +96,7 @@ func splitCollision(files *protoregistry.Files) bool {
 	return hit
 }
 
-var reConfusion = regexp.MustCompile(`interface conversion|refers to \*|fresh panic|fresh err, shared ok|fresh ok, shared`)
+var reConfusion = regexp.MustCompile(`interface conversion|refers to \*|fresh panic|fresh err, shared ok|fresh ok, shared|newPropSet: field|path-resolves`)
 
 type c18case struct {
 	id    int
@@ -219,8 +219,10 @@ func runC18(cfg *vh.Config) error {
 					// one signature per stage for the name-collision class
 					stage := "schema refers to a schema of another kind"
 					switch {
-					case strings.Contains(sig, "codec"):
+					case strings.Contains(sig, "codec") && strings.Contains(sig, "panic"):
 						stage = "codec panics on the type assertion of Ref.To"
+					case strings.Contains(sig, "codec"):
+						stage = "codec builds the property set of the other descriptor's schema"
 					case strings.Contains(sig, "-> panic"):
 						stage = "reader panics on ref.To.(*EnumSchema)"
 					case strings.Contains(sig, "earlier failed builds"):
